@@ -951,6 +951,50 @@ class Lane2DPick(Base):
       s.q @= s.inner[1].out[s.en][1]
 
 
+@design(lambda st, a, b, sel, en, reset: (None, {"o": (((a + 1) & M8) ^ b), "p": ((a + 1) & M8) if en else ((a + 2) & M8)}))
+class FuncCalls(Base):
+  """update blocks that read and write through @s.func functions (directly and nested): the callers inherit the functions' accesses"""
+  def construct(s):
+    s.ports()
+    s.o = OutPort(Bits8)
+    s.p = OutPort(Bits8)
+    s.t = Wire(Bits8)
+    s.u = Wire(Bits8)
+    s.v = Wire(Bits8)
+
+    @s.func
+    def inc_u():
+      s.u @= s.t + 1
+
+    @s.func
+    def pick_v():
+      if s.en:
+        s.v @= s.u
+      else:
+        s.v @= s.u + 1
+
+    @s.func
+    def outer():
+      pick_v()
+
+    @update
+    def up_fc_o():
+      s.o @= s.u ^ s.b
+      s.p @= s.v
+
+    @update
+    def up_fc_v():
+      outer()
+
+    @update
+    def up_fc_u():
+      inc_u()
+
+    @update
+    def up_fc_t():
+      s.t @= s.a
+
+
 def sequences():
   """input sequences (lists of dicts): one long deterministic walk covering every (sel, en) with varied a, b; reset pulses inside"""
   A = (0, 1, 0x5A, 0xFF, 0x80, 0x0F, 0x37)
